@@ -238,7 +238,7 @@ class PowerCut(object):
         self.k += 1
 
 
-def cutflow(sx, world, n, retry=False, outage=0):
+def cutflow(sx, world, n, retry=False, outage=0, relation=None):
     """C02: a write interrupted before its k-th state-changing command; then a
     fresh reader.  retry: the tag comes back into the field and the
     application repeats the write through the SAME tag object (what an
@@ -253,6 +253,14 @@ def cutflow(sx, world, n, retry=False, outage=0):
         return "too-long"
     msg = new_message(sx, n, getattr(world, 'long_trick', False),
                       getattr(world, 'concrete_msg', False))
+    if relation == "append" and n >= len(world.old):
+        # the new message begins with the stored one (a record appended)
+        msg = sx.mkbytes(list(world.old) + list(msg)[len(world.old):], True)
+        sx.reach("new_message_appends_to_old")
+    elif relation == "truncate" and n <= len(world.old):
+        # ... or is a prefix of it
+        msg = sx.mkbytes(list(world.old)[:n], True)
+        sx.reach("new_message_is_prefix_of_old")
     for l in world.geometry(n):
         sx.reach(l)
     cut = PowerCut(sx, outage=outage)
